@@ -52,7 +52,7 @@ type envVar struct {
 
 var templateSrc = []struct {
 	name, typ, family, src string
-	rank                   int // 2 = spine subset, 1 = core subset, 0 = the rest
+	rank                   int // 3 = deep subset, 2 = spine subset, 1 = core subset, 0 = the rest
 }{
 	{"add", "i", "+", "(+ ?i ?i)", 1},
 	{"sub", "i", "-", "(- ?i ?i ?i)", 0},
@@ -61,9 +61,9 @@ var templateSrc = []struct {
 	{"len", "i", "length", "(length ?l)", 0},
 	{"pg0", "l", "progn", "(progn)", 0},
 	{"pg1", "r", "progn", "(progn ?r)", 0},
-	{"pg2", "r", "progn", "(progn ?a ?r)", 2},
+	{"pg2", "r", "progn", "(progn ?a ?r)", 3},
 	{"pr1", "r", "prog1", "(prog1 ?r ?a ?a)", 1},
-	{"ift", "r", "if", "(if ?t ?r ?r)", 2},
+	{"ift", "r", "if", "(if ?t ?r ?r)", 3},
 	{"iff", "r", "if", "(if ?f ?r ?r)", 1},
 	{"i2t", "a", "if", "(if ?t ?a)", 0},
 	{"i2f", "a", "if", "(if ?f ?a)", 0},
@@ -89,7 +89,7 @@ var templateSrc = []struct {
 	{"orn", "a", "or", "(or ?f ?f)", 0},
 	{"or0", "l", "or", "(or)", 0},
 	{"lt1", "r", "let", "(let ((x ?i)) ?r+x)", 0},
-	{"lt2", "r", "let", "(let ((x ?i) (y ?i)) ?a+x+y ?r+x+y)", 2},
+	{"lt2", "r", "let", "(let ((x ?i) (y ?i)) ?a+x+y ?r+x+y)", 3},
 	{"lts", "l", "let-shadowing", "(let ((x ?i) (y ?i)) (let ((x ?i+x+y) (y ?i+x+y)) (list x y ?a+x+y)))", 1},
 	{"ltn", "l", "let-no-init", "(let (x (y)) (list x y ?a+x?+y?))", 0},
 	{"ls2", "r", "let*", "(let* ((x ?i) (y ?i+x)) ?a+x+y ?r+x+y)", 2},
@@ -99,7 +99,7 @@ var templateSrc = []struct {
 	{"sq1", "l", "setq", "(let ((x ?i)) (list (setq x ?i+x) x ?a+x x))", 2},
 	{"sq2", "l", "setq-pairs", "(let ((x ?i) (y ?i)) (list (setq x ?i+x+y y ?i+x+y) x y))", 0},
 	{"sqo", "i", "setq-outer-variable", "(let ((x ?i)) (let ((y ?i+x)) (setq x (+ x y)) ?a+x+y) x)", 1},
-	{"clc", "l", "closure-counter", "(let ((x ?i)) (let ((f (lambda (a) (setq x (+ x a)) ?i+x+a*))) (list (funcall f ?i+x+f&) (funcall f ?i+x+f&) x)))", 2},
+	{"clc", "l", "closure-counter", "(let ((x ?i)) (let ((f (lambda (a) (setq x (+ x a)) ?i+x+a*))) (list (funcall f ?i+x+f&) (funcall f ?i+x+f&) x)))", 3},
 	{"cl2", "l", "closures-sharing-a-variable", "(let ((x ?i)) (let ((f (lambda (a) (setq x (+ x a)))) (g (lambda (a) (* x a)))) (list (funcall f ?i) (funcall g ?i) (funcall f ?i) (funcall g ?i) x)))", 0},
 	{"cls", "l", "closure-called-under-shadowing-let", "(let ((x ?i)) (let ((f (lambda (a) (+ a x)))) (let ((x ?i+x+f&)) (list (funcall f ?i+x+f&) x))))", 1},
 	{"clw", "l", "closure-assigns-under-shadowing-let", "(let ((x ?i)) (let ((f (lambda (a) (setq x (+ x a))))) (list (let ((x ?i+x+f&)) (list (funcall f ?i+x+f&) x)) x)))", 0},
@@ -109,14 +109,14 @@ var templateSrc = []struct {
 	{"lmc", "r", "lambda-form-call", "((lambda (a b) ?a+a+b* ?r+a+b*) ?i ?i)", 2},
 	{"lmf", "r", "funcall-lambda", "(funcall (lambda (a b) ?r+a+b*) ?i ?i)", 0},
 	{"lms", "r", "funcall-sharp-quote-lambda", "(funcall #'(lambda (a) ?r+a*) ?i)", 0},
-	{"dfc", "r", "defun", "(let () (defun NAME (a b) ?a+a+b* ?r+a+b*) (NAME ?i ?i))", 2},
+	{"dfc", "r", "defun", "(let () (defun NAME (a b) ?a+a+b* ?r+a+b*) (NAME ?i ?i))", 3},
 	{"dfr", "l", "defun-recursive", "(let () (defun NAME (n) (if (= n 0) (list ?a+n*) (cons ?a+n* (NAME (- n 1))))) (NAME ?c))", 1},
 	{"df2", "l", "defun-called-twice", "(let () (defun NAME (a) ?a+a*) (list (NAME ?i) (NAME ?i)))", 0},
 	{"dfs", "l", "defun-called-through-designators", "(let () (defun NAME (a b) (list a b ?a+a+b*)) (list (funcall 'NAME ?i ?i) (funcall #'NAME ?i ?i) (apply #'NAME ?i (list ?i))))", 0},
 	{"dfv", "l", "defun-returning-values", "(let () (defun NAME (a b) (values a b ?a+a+b*)) (multiple-value-bind (a b c) (NAME ?i ?i) (list a b c)))", 0},
 	{"dol", "r", "dolist", "(dolist (i ?l ?r+i?) ?a+i?* ?a+i?*)", 1},
 	{"dlr", "l", "dolist-result-form-reads-variable", "(dolist (i ?l (list i ?a+i?)) ?a+i?*)", 0},
-	{"dot", "r", "dotimes", "(dotimes (i ?c ?r+i!) ?a+i!* ?a+i!*)", 2},
+	{"dot", "r", "dotimes", "(dotimes (i ?c ?r+i!) ?a+i!* ?a+i!*)", 3},
 	{"dt0", "r", "dotimes-zero", "(dotimes (i ?0 ?r+i!) ?a+i!*)", 0},
 	{"dtn", "a", "dotimes-no-result", "(dotimes (i ?c) ?a+i!*)", 0},
 	{"dop", "l", "do", "(do ((u 0 (+ u 1)) (v ?i u)) ((<= 2 u) (list u v ?a+u+v)) ?a+u+v*)", 2},
@@ -138,7 +138,7 @@ var templateSrc = []struct {
 	{"vl2", "a", "function-returning-two-values", "((lambda (a b) (values a b)) ?a ?a)", 2},
 	{"vl1", "r", "function-returning-one-value-via-values", "((lambda (a) (values a)) ?r)", 0},
 	{"vl0", "a", "function-returning-no-values", "((lambda () (values)))", 0},
-	{"mvb", "l", "multiple-value-bind", "(multiple-value-bind (a b) ?a (list a b ?a+a?+b?))", 2},
+	{"mvb", "l", "multiple-value-bind", "(multiple-value-bind (a b) ?a (list a b ?a+a?+b?))", 3},
 	{"mv3", "l", "multiple-value-bind-fewer-values", "(multiple-value-bind (a b c) (values ?a ?a) (list a b c))", 0},
 	{"mv1", "l", "multiple-value-bind-more-values", "(multiple-value-bind (a) (values ?a ?a) ?a+a? (list a))", 0},
 	{"vla", "l", "values-as-argument", "(list ((lambda (a b) (values a b)) ?a ?a) ?a)", 0},
@@ -455,6 +455,7 @@ func valid(t *term, req byte, sc scope) bool {
 type genOpts struct {
 	coreFrom  int  // templates at nesting depth >= coreFrom (root = 1) come from the core subset only; 0 = never
 	spineFrom int  // templates at nesting depth >= spineFrom come from the spine subset only; 0 = never
+	deepFrom  int  // templates at nesting depth >= deepFrom come from the deep subset only; 0 = never
 	spine     bool // at most one non-default hole per node ("spines")
 	maxDepth  int
 }
@@ -506,6 +507,9 @@ func (g *generator) gen(req byte, sc scope, dev, depth int, emit func(string)) {
 			continue
 		}
 		if g.opts.spineFrom != 0 && g.opts.spineFrom <= depth && tp.rank < 2 {
+			continue
+		}
+		if g.opts.deepFrom != 0 && g.opts.deepFrom <= depth && tp.rank < 3 {
 			continue
 		}
 		if len(tp.holes) == 0 {
